@@ -436,3 +436,144 @@ pub fn gen_long_symbol(t: &mut Tape, marker: u64) -> LzmaBuilt {
         ps,
     }
 }
+
+/// Adversarial end marker: the marker is a match with distance 2^32 whose
+/// length is free, so it can use the 8-bit "high" length tree, the 6-bit slot
+/// tree (slot 63), 26 direct bits and the 4-bit align tree. Every node on that
+/// path is first trained against it (deepest first); the marker then needs
+/// 15-18 input bytes — close to the 20-byte bound the streaming decoder's
+/// look-ahead is dimensioned for. pb = 0 so that one context collects all the
+/// training. Needs an output above 64 KiB (slot >= 32 for the second slot node).
+pub fn gen_long_marker(t: &mut Tape) -> LzmaBuilt {
+    let mut props = gen::draw_props(t, false);
+    props.pb = 0;
+    let dict_hdr: u32 = [0x0010_0000u32, 0x0080_0000, 0xFFFF_FFFF][t.below(3) as usize];
+    let dict = dict_hdr as u64;
+    let mut enc = RefEnc::new(props, dict);
+    let mut ps = gen::ProgStats::default();
+    let hi_b = t.below(256) as u32; // marker length - 18
+    let reps = t.range(160, 280);
+    let mut put = |enc: &mut RefEnc, ps: &mut gen::ProgStats, s: Sym| {
+        if enc.model.legal(s) {
+            ps.note(s, &enc.model, enc.state);
+            let _ = enc.encode(s);
+            true
+        } else {
+            false
+        }
+    };
+    for _ in 0..t.range(200, 400) {
+        let b = t.byte();
+        put(&mut enc, &mut ps, Sym::Lit(b));
+    }
+    // phases 0..8: the high length tree, deepest node first. These long matches
+    // also grow the output beyond 64 KiB. Their slot is < 32 (first slot node
+    // trained against "1"), their align bits are the complement pattern of 1111
+    // at the depth of the phase.
+    for phase in 0..8u32 {
+        let i = 7 - phase;
+        let k = [3u32, 2, 1, 0, 0, 0, 0, 0][phase as usize];
+        for _ in 0..reps {
+            let keep = if i == 0 { 0 } else { hi_b >> (8 - i) << (8 - i) };
+            let flip = ((hi_b >> (7 - i)) & 1) ^ 1;
+            // low bits all ones: long copies, so the output grows quickly
+            let low = (1u32 << (7 - i)) - 1;
+            let len_t = ((keep | (flip << (7 - i)) | low) & 0xFF) + 18;
+            let mask = (1u32 << k) - 1;
+            let al_t = (0xF & mask) | (((1 ^ 1) & 1) << k); // bits below k are ones, bit k is zero
+            let slot_t = 14 + 2 * t.below(6) as u32; // 14..24, even
+            let nd = (slot_t >> 1) - 1;
+            let base = (2 | (slot_t & 1)) << nd;
+            let mut d_t = base | al_t;
+            let avail = enc.model.avail() as u64;
+            if d_t as u64 + 1 > avail {
+                d_t = avail.saturating_sub(1).min(200) as u32;
+            }
+            put(
+                &mut enc,
+                &mut ps,
+                Sym::Match {
+                    dist: d_t + 1,
+                    len: len_t,
+                },
+            );
+        }
+    }
+    // make sure slot 32 (distance 65537) is legal
+    while (enc.model.avail() as u64) < 66_000 {
+        put(&mut enc, &mut ps, Sym::Match { dist: 1, len: 273 });
+    }
+    // second slot node (path "1" then "1"): train with slots 32..47 = "10xxxx".
+    // Length with the top high-tree bit flipped, so that only the already
+    // handled root of the length tree is touched on the marker's path.
+    let top_flipped = (((hi_b >> 7) & 1) ^ 1) << 7;
+    for _ in 0..reps {
+        let d_t: u32 = 65536 + (t.below(4) as u32) * 16 + 0; // slot 32, align 0000
+        put(
+            &mut enc,
+            &mut ps,
+            Sym::Match {
+                dist: d_t + 1,
+                len: (top_flipped | 0x7F) + 18,
+            },
+        );
+    }
+    // first slot node: slots < 32 (any short distance), length as above
+    for _ in 0..reps {
+        put(
+            &mut enc,
+            &mut ps,
+            Sym::Match {
+                // distance - 1 < 128: slot < 14, so the align tree is not touched
+                dist: 40 + t.below(50) as u32,
+                len: (top_flipped | 0x7F) + 18,
+            },
+        );
+    }
+    // choice2 (mid lengths 10..17 take "choice=1, choice2=0"), then choice
+    // (short lengths take "choice=0"); slot < 14 so align is not touched, first
+    // slot bit 0 (against the marker)
+    for _ in 0..reps {
+        put(&mut enc, &mut ps, Sym::Match { dist: 3, len: 10 + t.below(8) as u32 });
+    }
+    for _ in 0..reps {
+        put(&mut enc, &mut ps, Sym::Match { dist: 3, len: 5 + t.below(5) as u32 });
+    }
+    // finally is_rep (towards "rep") and is_match (towards "literal") in the
+    // state the marker will be coded in: a run of literals ends in state 0
+    for _ in 0..reps {
+        for _ in 0..t.range(6, 12) {
+            let b = t.byte();
+            put(&mut enc, &mut ps, Sym::Lit(b));
+        }
+        put(&mut enc, &mut ps, Sym::Rep { idx: 0, len: 2 });
+    }
+    for _ in 0..t.range(4, 10) {
+        let b = t.byte();
+        put(&mut enc, &mut ps, Sym::Lit(b));
+    }
+    if std::env::var("LZSIM_DEBUG_MARKER").is_ok() {
+        eprintln!("{:?}", enc.marker_cost(hi_b + 18));
+    }
+    enc.encode_end_marker_len(hi_b + 18);
+    let payload = enc.finish_segment();
+    LzmaBuilt {
+        props,
+        dict_hdr,
+        dict,
+        payload,
+        expect: std::mem::take(&mut enc.model.out),
+        marker: true,
+        trace: std::mem::take(&mut enc.trace),
+        ps,
+    }
+}
+
+/// One of the two adversarial long-symbol streams.
+pub fn gen_long(t: &mut Tape, marker: u64) -> LzmaBuilt {
+    if marker != 2 && t.below(2) == 1 {
+        gen_long_marker(t)
+    } else {
+        gen_long_symbol(t, marker)
+    }
+}
